@@ -7,8 +7,8 @@ TECH = 'machine-checked proof in Lean 4 (theorems over a model tied to /repo by 
 P = {
  'C01': ('proof', 'Lean theorems (Props/C01.lean) over the generated size/capacity word functions (size bookkeeping of every operation shape tracks std::vector through every history; move/swap) and (Props/C01b.lean) over the slot-level model: each of 23 public operation kinds, from any state representing a list xs that satisfies the std::vector precondition, ends representing exactly the std::vector result (or throws), for every flavour and size type; histories of them end in a list the std::vector semantics allows; begin()..end() shows exactly the represented list + three-way correspondence impl / slot-level Lean model / std::vector on random histories incl. aliasing arguments and single-pass ranges',
          'The slot-level model of the public operations is hand-written (tied by correspondence); the size/capacity/pointer members it calls and the law packages (VecLaws) are regenerated and re-proved from the source on every run. Move/swap between containers, shrink_to_fit, single-pass ranges and multi-element insertion exceptions: word-level theorems + correspondence. 64-bit size_type: word-level step theorems under capacity < 2^62. ' + TB),
- 'C03': ('proof', 'Lean theorems on the FlatSet list model for every strict weak order (sortedness invariant of every mutator, insert inserts iff no equivalent element, lookups by equivalence, bulk = one-by-one insertion, hinted = plain insertion, binary search = specification lower bound) + correspondence impl / model / std::set over 4 comparators x 4 underlying vectors',
-         'Hand-written model tied by correspondence; std algorithms (sort/inplace_merge/unique) modelled at specification level; heterogeneous lookups and cross-comparator merge not exercised yet. ' + TB),
+ 'C03': ('proof', 'Lean theorems on the FlatSet list model for every strict weak order (sortedness invariant of every mutator, insert inserts iff no equivalent element, lookups by equivalence, bulk = one-by-one insertion, hinted = plain insertion, binary search = specification lower bound), transferred (Props/C03b.lean) to insert / emplace / find / erase(key) / lower_bound as REGENERATED from flatset.hpp on every run by translator/flatset2lean.py and proved equal to the model in Bridge/FlatSetBridge.lean (incl. never dereferencing outside [begin,end)) + correspondence impl / model / std::set over 4 comparators x 4 underlying vectors',
+         'Generated from the source: the loop-free decision logic (insert, insert(hint), emplace(_hint), find, contains, count, equal_range, lower/upper_bound, erase(key)). Hand-written and tied by correspondence only: std::lower_bound itself (libstdc++ loop), bulk paths (sort/inplace_merge/unique at specification level), merge, node handles, constructors; heterogeneous lookups and cross-comparator merge not exercised yet. ' + TB),
  'C04': ('proof', 'Lean theorems on the SmallSet {inline vector, backing set} model for every strict weak order (state invariant kept by insert/erase/grow, insert and find answer by membership up to equivalence in either state and across grow) + correspondence impl / model / std::set with grow-drain-refill histories, both backing sets',
          'Hand-written model tied by correspondence; std::set is modelled as a sorted duplicate-free list. ' + TB),
  'C05': ('proof', 'Lean theorem: every history confined to N keeps an inline SmallVector inline with capacity N and emits no effect (over generated words); move/swap between inline vectors; FixedCapacityVector base members have no allocator effect and a constant begin(); + confined-history correspondence with allocator ledger',
@@ -19,11 +19,11 @@ P = {
          'Single-pass input ranges have no length known in advance: capacity may grow before the limit is met (contents are restored). Signed size types by correspondence only. ' + TB),
  'C11': ('proof', 'Lean theorems on the SmallSet model: erase(position) yields the sequence without that element in either state incl. the fall-back to inline, returned position is end() iff nothing follows, iteration sequence has no duplicates, the erase-while-iterating loop terminates in size() trips leaving exactly the unselected elements + iterator histories on the real sets (variant iterators and raw-pointer iterators)',
          'Iterators are indices in the model; real iterator equality/dereference is observed by the harness. ' + TB),
- 'C12': ('proof', 'Lean theorem: for every strict weak order, sorted content, hint in [begin,end] and value, the nine-exit insert_hint model equals plain insertion (list and designated index) + complete enumeration of subsets x hints x values on the real FlatSet against plain insert, std::set and the model (incl. comparator-call counts)',
-         'insert_hint is hand-modelled (not yet generated from the AST); tied by the exhaustive correspondence. ' + TB),
+ 'C12': ('proof', 'Lean theorem: for every strict weak order, sorted content, hint in [begin,end] and value, the nine-exit insert_hint model equals plain insertion (list and designated index); the same for insert(hint, const T&), insert(hint, T&&) and emplace_hint as REGENERATED from flatset.hpp on every run (translator/flatset2lean.py, equality with the model proved in Bridge/FlatSetBridge.lean; Props/C12b.lean), incl. that no iterator outside [begin,end] is dereferenced + complete enumeration of subsets x hints x values on the real FlatSet against plain insert, std::set and the model (incl. comparator-call counts)',
+         'The generated functions are read as generic in the element type and comparator although FlatSet<int, std::less<int>> is what is instantiated for the AST; std::lower_bound inside the search-before-hint exit is the hand-written libstdc++ loop. ' + TB),
  'C18': ('proof', 'Lean theorem over the generated SafeNextCapacity: n <= 2*2^k pushes perform <= 2k+2 allocator requests from any state; reserve allocates once; shrink_to_fit target + allocator-call counting on real runs',
          'O(n) relocations is checked on runs (3*size+8), not proved. ' + TB),
- 'C19': ('proof', 'Lean theorems: libstdc++ lower_bound/upper_bound halving loops use <= k comparator calls below 2^k elements and compute the specification lower bound; find/insert/erase <= k+1; correct hint <= 4 calls; inline SmallSet scan <= 2N + real comparator-call counts for all n <= 64 and every rank, diffed exactly against the model',
+ 'C19': ('proof', 'Lean theorems: libstdc++ lower_bound/upper_bound halving loops use <= k comparator calls below 2^k elements and compute the specification lower bound; find/insert/erase <= k+1; correct hint <= 4 calls; inline SmallSet scan <= 2N; the same bounds for the lookups, key-based mutators and hinted insertions REGENERATED from flatset.hpp on every run (Props/C19b.lean via Bridge/FlatSetBridge.lean) + real comparator-call counts for all n <= 64 and every rank, diffed exactly against the model',
          'std::lower_bound is modelled (libstdc++ 12 loop), validated by exact count comparison; std::set-backed large SmallSet counts are not modelled. ' + TB),
 }
 def main():
